@@ -550,6 +550,11 @@ func sshSanitizeFilePath(sandboxDir, filePath string) (string, error) {
 	if !strings.HasPrefix(cleaned, cleanedSandbox+string(filepath.Separator)) {
 		return "", fmt.Errorf("path %q is outside the sandbox directory %q", filePath, sandboxDir)
 	}
+	// A relative sandbox directory made only of ".." elements is a textual prefix of paths that climb above it
+	rest := cleaned[len(cleanedSandbox)+1:]
+	if rest == ".." || strings.HasPrefix(rest, ".."+string(filepath.Separator)) {
+		return "", fmt.Errorf("path %q is outside the sandbox directory %q", filePath, sandboxDir)
+	}
 
 	return cleaned, nil
 }
